@@ -418,4 +418,29 @@ mod tests {
 
         Ok(())
     }
+
+    #[tokio::test]
+    async fn test_read_with_truncated_last_block() {
+        #[rustfmt::skip]
+        let data = [
+            // block 0 (b"noodles")
+            0x1f, 0x8b, 0x08, 0x04, 0x00, 0x00, 0x00, 0x00, 0x00, 0xff, 0x06, 0x00, 0x42, 0x43,
+            0x02, 0x00, 0x22, 0x00, 0xcb, 0xcb, 0xcf, 0x4f, 0xc9, 0x49, 0x2d, 0x06, 0x00, 0xa1,
+            0x58, 0x2a, 0x80, 0x07, 0x00, 0x00, 0x00,
+            // block 1 (b"bgzf"), without its last byte
+            0x1f, 0x8b, 0x08, 0x04, 0x00, 0x00, 0x00, 0x00, 0x00, 0xff, 0x06, 0x00, 0x42, 0x43,
+            0x02, 0x00, 0x1f, 0x00, 0x4b, 0x4a, 0xaf, 0x4a, 0x03, 0x00, 0x20, 0x68, 0xf2, 0x8c,
+            0x04, 0x00, 0x00,
+        ];
+
+        let mut reader = Reader::new(&data[..]);
+        let mut buf = Vec::new();
+
+        assert!(matches!(
+            reader.read_to_end(&mut buf).await,
+            Err(e) if e.kind() == io::ErrorKind::UnexpectedEof
+        ));
+
+        assert_eq!(buf, b"noodles");
+    }
 }
